@@ -28,7 +28,8 @@ THEOREMS = ["C02_seq_iff", "C02_perm", "C02_recheck", "C02_checkParams_eq"]
 RULE = (
     "calls of generated functions with 1..5 array-annotated parameters and an optional return "
     "annotation (dim grammar; symbolic axes only over names bound by plain named axes of earlier "
-    "parameters), argument shapes mostly consistent with 0-2 planted inconsistencies; each case runs "
+    "parameters or to their left in the same annotation, including chains such as `a a+1 b a+b` where a name is first "
+    "bound between two symbolic axes), argument shapes mostly consistent with 0-2 planted inconsistencies; each case runs "
     "under {typeguard, beartype} x {jaxtyped(typechecker=), jaxtyped(tc(fn)), dataclass} x {declared "
     "order, 2 admissible permutations} x {positional, keyword}; plus signatures of three annotated values "
     "(2 parameters + return, or 3 parameters) that all use ONE multi-axis name as `*b` / `#*b` over a pool "
@@ -45,6 +46,18 @@ TRUSTED = [
 CHECKERS = {"typeguard": typeguard.typechecked, "beartype": beartype.beartype}
 
 
+def admissible(dims, bound):
+    """every symbolic axis only mentions names bound by earlier parameters or by plain named axes to its left in the
+    same annotation (the walk is left to right within the axes before and after a multi-axis specifier)"""
+    seen = set(bound)
+    for t in dims.split():
+        if not gen_dims.sym_names(t) <= seen:
+            return False
+        if t.lstrip("#") in gen_dims.NAMES:
+            seen.add(t.lstrip("#"))
+    return True
+
+
 def gen_case(rng, thorough):
     n = rng.rng(1, 5)
     alpha = {nm: rng.rng(0, 4) for nm in gen_dims.NAMES}
@@ -54,7 +67,7 @@ def gen_case(rng, thorough):
     for i in range(n):
         for _ in range(10):
             dims = gen_dims.rand_dims(rng, max_axes=4 if not thorough else 5, holes=())
-            if gen_dims.sym_names(dims) <= bound:
+            if admissible(dims, bound):
                 break
         else:
             dims = "a b"
@@ -63,13 +76,13 @@ def gen_case(rng, thorough):
         params.append({"name": f"x{i}", "dims": dims, "shape": shape, "cat": cat,
                        "dtype": "int32" if cat == "Int" else "float32"})
         for t in dims.split():
-            if t in gen_dims.NAMES:
-                bound.add(t)
+            if t.lstrip("#") in gen_dims.NAMES:
+                bound.add(t.lstrip("#"))
     ret = None
     if rng.chance(3, 4):
         for _ in range(10):
             dims = gen_dims.rand_dims(rng, max_axes=4, holes=())
-            if gen_dims.sym_names(dims) <= bound:
+            if admissible(dims, bound):
                 break
         else:
             dims = "a"
@@ -200,7 +213,18 @@ def run_case(out, drv, facts, case, rng, nperm, all_perms=False):
         impl_only = {k: v for k, v in verdicts.items() if not k.startswith("model/")}
         key_cfgs = sorted({k.rsplit("/order", 1)[0] for k, v in impl_only.items() if v != model_v})
         rep = {"case": case, "verdicts": verdicts, "required": model_v}
-        if model_v == "ann" or any(v == "ann" for v in verdicts.values()):
+        model_vs = {v for k, v in verdicts.items() if k.startswith("model/")}
+        if model_vs == {model_v} and model_v != "ann" and key_cfgs:
+            # in every order tried every symbolic axis only meets bound names, so the call has a verdict: AnnotationError
+            # (or the other verdict) from the implementation is a wrong answer
+            out.violation(
+                "verdict:" + ",".join(key_cfgs)[:120],
+                f"the call must be {model_v} (one consistent assignment {'exists' if model_v == 'accept' else 'does not exist'}; every "
+                f"symbolic axis only uses names bound before it) but configurations {key_cfgs} answered otherwise: "
+                f"{ {k: v for k, v in impl_only.items() if v != model_v} }",
+                rep,
+            )
+        elif model_v == "ann" or any(v == "ann" for v in verdicts.values()):
             # walk-order dependent zone (unbound symbolic name met in one order but not another)
             out.model_diff("ann-zone", f"verdicts differ in the AnnotationError zone: {sorted(distinct)}", rep)
         elif key_cfgs:
